@@ -30,6 +30,20 @@ Print Assumptions c19_encoder_is_published.
 Theorem c19_emits_the_published_encoding : forall P v, dump P v = pub_dump (sp P) (maxdigits P) v.
 Proof. exact dump_is_published. Qed.
 Print Assumptions c19_emits_the_published_encoding.
+(* 2c. ... with the published TEXT codec, UTF-8 proper (strict), on every value whose text contains no lone surrogate - whatever codec
+       mode the tree is in. Lone surrogates are exactly where a surrogatepass tree (the F1 repair) leaves the published format: the
+       witness is a one-character string it emits as 08 0c ed a0 80 and the strict codec refuses (known finding F67) *)
+Theorem c19_emits_the_strict_published_encoding : forall P v, nosurr v = true -> dump P v = pub_dump false (maxdigits P) v.
+Proof. exact dump_is_strictly_published. Qed.
+Theorem c19_surrogate_extension_refuted : exists P v, sp P = true /\ (exists bs, dump P v = Ok bs) /\ pub_dump false (maxdigits P) v = Raise UnicodeError.
+Proof. exists {| sp := true; maxdigits := 4300 |}, (PStr [0xD800%N]). destruct surrogate_witness as [A B]. split; [reflexivity|]. split; [eexists; exact A|exact B]. Qed.
+Print Assumptions c19_emits_the_strict_published_encoding.
+Print Assumptions c19_surrogate_extension_refuted.
+(* 2d. frames: what Channel.send puts on the wire for a payload is the published frame - 4-byte big-endian body length, flag byte 1
+       exactly when the sender compresses and the payload is strictly longer than 3000 bytes, the body, a newline - for any zlib *)
+Theorem c19_frame_is_published : forall zlib P cmp d, threshold P = 3000 -> flusher P = [b_of 10] -> frame zlib P cmp d = pub_frame zlib cmp d.
+Proof. exact frame_is_published. Qed.
+Print Assumptions c19_frame_is_published.
 
 (* 3. shortest form: for every length below 2^32 each ladder emits a header no longer than any header the format admits
       for that length, and integers use the one-byte immediate whenever the format has one *)
